@@ -30,7 +30,7 @@ def scan_unsafe():
 
 def ctfe_stage(rep):
     env = dict(os.environ, CARGO_NET_OFFLINE="true", CARGO_TARGET_DIR=os.path.join(ROOT, "target"))
-    p = subprocess.run(["cargo", "build", "--release", "--offline", "-p", "ctfe", "--message-format=json"], cwd=os.path.join(ROOT, "harness"), env=env, stdout=subprocess.PIPE, stderr=subprocess.PIPE, text=True)
+    p = subprocess.run(["cargo", "build", "--release", "--offline", "-p", "ctfe", "--message-format=json"], cwd=os.path.join(ROOT, "harness"), env=env, stdout=subprocess.PIPE, stderr=subprocess.PIPE, text=True, errors="replace")
     errs = []
     for line in p.stdout.split("\n"):
         if not line.startswith("{"):
@@ -69,7 +69,7 @@ def miri_engine(i, deep):
     t = time.time()
     try:
         p = subprocess.run(["cargo", "+nightly", "miri", "run", "--offline", "-q", "-p", "rt"] + FEAT + ["--", "C01", "--tier", "miri", "--out", out] + sel, cwd=os.path.join(ROOT, "harness"), env=env,
-                           stdout=subprocess.PIPE, stderr=subprocess.PIPE, text=True, timeout=3 * 3600 if deep else 900)
+                           stdout=subprocess.PIPE, stderr=subprocess.PIPE, text=True, errors="replace", timeout=3 * 3600 if deep else 900)
     except subprocess.TimeoutExpired:
         return i, None, "timeout", "", time.time() - t
     r = None
@@ -97,7 +97,7 @@ def run(tier, seed, drv):
     # ---- (3) Miri: first make sure the interpreter build exists (one build, then parallel runs)
     deep = tier == "thorough"
     env = dict(os.environ, CARGO_NET_OFFLINE="true", CARGO_TARGET_DIR=os.path.join(ROOT, "target", "miri"), MIRIFLAGS="-Zmiri-disable-isolation -Zmiri-ignore-leaks -Zmiri-symbolic-alignment-check")
-    b = subprocess.run(["cargo", "+nightly", "miri", "run", "--offline", "-q", "-p", "rt"] + FEAT + ["--", "C01", "--tier", "miri", "--out", "/dev/null", "--engines", "999"], cwd=os.path.join(ROOT, "harness"), env=env, stdout=subprocess.PIPE, stderr=subprocess.PIPE, text=True)
+    b = subprocess.run(["cargo", "+nightly", "miri", "run", "--offline", "-q", "-p", "rt"] + FEAT + ["--", "C01", "--tier", "miri", "--out", "/dev/null", "--engines", "999"], cwd=os.path.join(ROOT, "harness"), env=env, stdout=subprocess.PIPE, stderr=subprocess.PIPE, text=True, errors="replace")
     if b.returncode != 0:
         rep["machinery_errors"].append("cargo miri could not build/run the harness: " + b.stderr[-1500:])
         return rep
@@ -118,7 +118,7 @@ def run(tier, seed, drv):
                 confirmed = True
                 if only_sb:
                     env2 = dict(os.environ, CARGO_NET_OFFLINE="true", CARGO_TARGET_DIR=os.path.join(ROOT, "target", "miri"), MIRIFLAGS="-Zmiri-disable-isolation -Zmiri-ignore-leaks -Zmiri-symbolic-alignment-check -Zmiri-tree-borrows")
-                    p2 = subprocess.run(["cargo", "+nightly", "miri", "run", "--offline", "-q", "-p", "rt"] + FEAT + ["--", "C01", "--tier", "miri", "--out", "/dev/null", "--engines", str(i)] + (["--deep"] if deep else []), cwd=os.path.join(ROOT, "harness"), env=env2, stdout=subprocess.PIPE, stderr=subprocess.PIPE, text=True)
+                    p2 = subprocess.run(["cargo", "+nightly", "miri", "run", "--offline", "-q", "-p", "rt"] + FEAT + ["--", "C01", "--tier", "miri", "--out", "/dev/null", "--engines", str(i)] + (["--deep"] if deep else []), cwd=os.path.join(ROOT, "harness"), env=env2, stdout=subprocess.PIPE, stderr=subprocess.PIPE, text=True, errors="replace")
                     confirmed = "Undefined Behavior" in p2.stderr
                     if not confirmed:
                         rep["notes"].append(f"{name}: a Stacked-Borrows-only report was not confirmed under Tree Borrows and is not counted")
@@ -152,7 +152,7 @@ def run(tier, seed, drv):
             menv = dict(os.environ, CARGO_NET_OFFLINE="true", CARGO_TARGET_DIR=os.path.join(ROOT, "target", "miri-gen"), MIRIFLAGS="-Zmiri-disable-isolation -Zmiri-ignore-leaks -Zmiri-symbolic-alignment-check", RUSTFLAGS="-Awarnings")
             def one(si):
                 t = time.time()
-                p = subprocess.run(["cargo", "+nightly", "miri", "run", "--offline", "-q", "-p", f"{prefix}_{si}"], cwd=ws, env=menv, stdout=subprocess.PIPE, stderr=subprocess.PIPE, text=True)
+                p = subprocess.run(["cargo", "+nightly", "miri", "run", "--offline", "-q", "-p", f"{prefix}_{si}"], cwd=ws, env=menv, stdout=subprocess.PIPE, stderr=subprocess.PIPE, text=True, errors="replace")
                 return si, p.returncode, p.stdout, p.stderr, time.time() - t
             with concurrent.futures.ThreadPoolExecutor(8) as ex:
                 for si, rc, out, err, secs in ex.map(one, range(shards)):
